@@ -28,7 +28,7 @@ func (c16) ProcOpts() Proc {
 	return Proc{RlimitAS: 4 << 30, MaxStack: 64 << 20, StallSec: 60, StallCPU: 40}
 }
 
-var c16witness = []string{"zero", "ptr-zero", "empty", "one", "full", "cyclic", "nil-elems", "iface-cycle"}
+var c16witness = []string{"zero", "ptr-zero", "empty", "one", "full", "cyclic", "nil-elems", "iface-cycle", "interior"}
 
 // ClashNode: a self-referential type that also holds a type with the SAME SHORT NAME as another
 // type from another package (maps are keyed by bare type name, so only termination is judged here)
@@ -106,15 +106,31 @@ func rootIface(t reflect.Type) bool {
 	return t.Kind() == reflect.Interface
 }
 
-func customName(t reflect.Type) (string, bool) {
+// newFilled: a zero value of t whose embedded pointers are set at every level of embedding (a promoted
+// method must not be called through a nil embedded pointer)
+func newFilled(t reflect.Type, depth int) reflect.Value {
 	v := reflect.New(t).Elem()
-	if t.Kind() == reflect.Struct {
+	if t.Kind() == reflect.Struct && depth < 8 {
 		for i := 0; i < t.NumField(); i++ {
-			if f := v.Field(i); t.Field(i).Anonymous && f.Kind() == reflect.Ptr && f.CanSet() {
-				f.Set(reflect.New(f.Type().Elem())) // a promoted method must not be called through a nil embedded pointer
+			f := v.Field(i)
+			if !t.Field(i).Anonymous || !f.CanSet() {
+				continue
+			}
+			switch {
+			case f.Kind() == reflect.Ptr && f.Type().Elem().Kind() == reflect.Struct:
+				n := reflect.New(f.Type().Elem())
+				n.Elem().Set(newFilled(f.Type().Elem(), depth+1))
+				f.Set(n)
+			case f.Kind() == reflect.Struct:
+				f.Set(newFilled(f.Type(), depth+1))
 			}
 		}
 	}
+	return v
+}
+
+func customName(t reflect.Type) (string, bool) {
+	v := newFilled(t, 0)
 	if v.CanInterface() {
 		if n, ok := v.Interface().(hessian.CodecNamable); ok {
 			name := n.HessianCodecName()
@@ -129,7 +145,7 @@ func customName(t reflect.Type) (string, bool) {
 						ft = ft.Elem()
 					}
 					if f.Anonymous && ft.Kind() == reflect.Struct {
-						if en, ok := reflect.New(ft).Elem().Interface().(hessian.CodecNamable); ok && en.HessianCodecName() == name {
+						if en, ok := newFilled(ft, 0).Interface().(hessian.CodecNamable); ok && en.HessianCodecName() == name {
 							return "", false
 						}
 					}
@@ -168,6 +184,14 @@ func witness(e zoo.Entry, kind string, seed int64) (interface{}, bool) {
 	case "nil-elems":
 		// containers that HAVE elements, all of them nil pointers (make([]*T, n))
 		cfg.NilProb, cfg.MaxLen, cfg.MinLen, cfg.MaxDepth = 1, 3, 2, 3
+	case "interior":
+		// a pointer to the FIRST FIELD of a struct, met before the pointer to the struct itself: two objects of
+		// different types at one address (an extraction that remembers addresses must remember the type too)
+		if e.Name != "IOrder" {
+			return nil, false
+		}
+		doc := &zoo.IDoc{Header: zoo.IHead{No: 1, Title: "t"}, Lines: []zoo.ILine{{Qty: 1, Item: "i"}}, Party: &zoo.IParty{Name: "p"}}
+		return &zoo.IOrder{Head: &doc.Header, Doc: doc}, true
 	case "iface-cycle":
 		// generic containers that reach themselves through interface values (an attribute tree
 		// whose children link back to the root): the walk must terminate on them as well
